@@ -692,7 +692,21 @@ def polarity(chk: Check) -> int:
                 # from the 'differs' outcome no path may reach a non-False return
                 reach = cfg.reachable(b)
                 bad = [t_ for t_ in true_like if t_ in reach]
-                falls = cfg.exit in reach and not any(fr in reach for fr in false_rets) and not bad
+                if bi.value is False:
+                    # ``return <the comparison that just came out false>`` (directly or through the
+                    # local it was bound to) returns that falsy result: a "false" return
+                    al_ = local_aliases(f.node)
+
+                    def same_as_atom(r_: ast.AST) -> bool:
+                        v_ = getattr(r_, "value", None)
+                        if isinstance(v_, ast.Name) and v_.id in al_:
+                            v_ = al_[v_.id]
+                        return v_ is not None and unparse(v_) == unparse(i.ast)
+                    falsy_here = [t_ for t_ in bad if same_as_atom(cfg.info[t_].ast)]
+                    bad = [t_ for t_ in bad if t_ not in falsy_here]
+                else:
+                    falsy_here = []
+                falls = cfg.exit in reach and not any(fr in reach for fr in list(false_rets) + falsy_here) and not bad
                 chk.ob("R18.5", "%s:differs->False(%s)" % (f.qualname, _rk(i.ast)), not bad and not falls,
                        f.loc(i.ast),
                        "in %s, when %s says the two sides differ the function can still return a "
